@@ -724,9 +724,9 @@ def mon_probe(script, res):
     return None
 
 
-def hostile_stream(chk, wd):
+def hostile_stream(chk, wd, scale=1.0):
     import shutil
-    n = 1500 if chk.tier == 'quick' else 20000
+    n = int((1500 if chk.tier == 'quick' else 20000) * scale)
     hits = 0
     for k in range(n):
         d = os.path.join(wd, 'h%d' % k)
@@ -1069,6 +1069,11 @@ def _run(chk, which, prop_rel, proved, wd):
         monitor_hits += hp
     if which in ('C03', 'C04'):
         nh += config_tie(chk, wd)
+    if which == 'C02':
+        # exits that must still be attributed when the reaper meets hostile output, faults or listener pools
+        nh2, hh2 = hostile_stream(chk, wd, scale=0.4)
+        nh += nh2
+        monitor_hits += hh2
     if which in ('C03', 'C04', 'C02', 'C13'):
         npl, hpl = pool_stream(chk)
         nh += npl
